@@ -62,14 +62,15 @@ Qed.
 
 
 (* `local function V<t>(ps) <body> end` for a temporary t: a new closure *)
-Lemma rel_define_lambda fl W sc e st E stL t ps ks body g k scout bc ctx c c2 l :
+Lemma rel_define_lambda fl W sc e st E stL t ps ks rk body g k bc ctx c c2 l :
   rel pv sv bound u fl W sc e st E stL ->
   params_ok pv sv bound fl sc ps = true -> length ks = length ps ->
-  frag_stmts pv sv bound (snd (bind_scope ps ks sc fl)) k (fst (bind_scope ps ks sc fl)) body = Some scout ->
+  fbody_check (frag_stmts pv sv bound (snd (bind_scope ps ks sc fl)) k (fst (bind_scope ps ks sc fl)))
+              (fun fl1 sc1 x => frag_fexpr pv sv bound fl1 k sc1 x) k body rk = true ->
   lower_fbody (statement g) (expression g) body ctx c = Ok (bc, c2) ->
   ucovers u bc -> bound <= t -> t < c -> lut_ok bound l c c2 -> E_free E c c2 ->
   let E1 := sset (fmt_var t) (s_ncell stL) E in
-  let d := mkFdyn t ps ks body sc fl g k scout bc ctx c c2 l
+  let d := mkFdyn t ps ks rk body sc fl g k bc ctx c c2 l
                   0%nat (length (SyltSem.clos st)) e (s_ncell stL) (s_nclo stL) E1 in
   rel pv sv bound u fl (world_addD W d) sc e (s_newclos st (SyltSem.mkClos ps body e))
       E1 (lua_def_state stL E1 ps (fbody u d)).
@@ -104,7 +105,7 @@ Proof.
       + intros c0 d0 Hf. destruct (H6 c0 _ d0 Hf) as (_ & _ & Hlt & _). lia.
     - rewrite sget_sset_var in Hq by exact Hne. exact (H14 t0 p Hbt0 Hq). }
   assert (Hstatic : fstatic pv sv bound u d).
-  { constructor; cbn [d fd_var fd_params fd_pk fd_body fd_sc fd_fl fd_g fd_k fd_scout fd_code fd_c fd_c' fd_lut fd_ef fd_Ef].
+  { constructor; cbn [d fd_var fd_params fd_pk fd_rk fd_body fd_sc fd_fl fd_g fd_k fd_code fd_c fd_c' fd_lut fd_ef fd_Ef].
     - exact Hlow.
     - exact Hfb.
     - exact Hlks.
